@@ -178,6 +178,8 @@ impl FiberPool {
         let stats = self.stats.clone();
 
         let handle = tokio::task::spawn(async move {
+            #[cfg(zipora_verif)]
+            crate::verif::async_point("fiber_pool.task_start").await;
             // Acquire semaphore permit
             let _permit = semaphore
                 .acquire()
@@ -188,6 +190,8 @@ impl FiberPool {
             let start_time = Instant::now();
 
             let result = future.await;
+            #[cfg(zipora_verif)]
+            crate::verif::async_point("fiber_pool.task_end").await;
 
             let execution_time = start_time.elapsed().as_micros() as u64;
             stats
